@@ -232,6 +232,47 @@ def r_tables(c):
                 f"{h} is neither handled nor rejected")
 
 
+PY_OPERATOR_NODES = {"Add", "Sub", "Mult", "Div", "FloorDiv", "Mod", "Pow", "BitOr", "BitXor",
+                     "BitAnd", "LShift", "RShift", "MatMult", "Invert", "Not", "UAdd", "USub",
+                     "And", "Or", "Eq", "NotEq", "Lt", "LtE", "Gt", "GtE", "Is", "IsNot", "In",
+                     "NotIn"}
+
+
+def r_operator_inventory(c):
+    """which Python operators the emitter can put into generated code: only the
+    ones in the operator table (whose entries R14-TABLES checks one by one).
+    Everything else -- comparisons, logical operations, negation -- has to be a
+    NumPy call, because Python's own operators mean something else on arrays
+    (`~x` is bitwise, `a and b` / `not a` raise or take truth values)"""
+    m = c.model
+    tbl = m.table(NL, "SIMPLE_BINOP_TO_AST_OP")
+    in_table = {id(v) for v in tbl.values}
+    n = 0
+    for mi, fd in m.all_functions(modules=[NL]):
+        for x in ast.walk(fd):
+            if isinstance(x, ast.Attribute) and isinstance(x.value, ast.Name) \
+                    and x.value.id == "ast" and x.attr in PY_OPERATOR_NODES \
+                    and id(x) not in in_table:
+                n += 1
+                c.violation("R14-TABLES", m.qualname(fd).replace("pytato.", "", 1),
+                            f"python-operator:ast.{x.attr}", m.loc(mi, x),
+                            f"the emitter builds the Python operator ast.{x.attr} directly "
+                            "(outside SIMPLE_BINOP_TO_AST_OP): on arrays Python's operator "
+                            "is not the NumPy function of the same name (e.g. ~x is bitwise "
+                            "inversion, not logical_not)")
+            if isinstance(x, ast.Attribute) and isinstance(x.value, ast.Name) \
+                    and x.value.id == "ast" and x.attr in ("UnaryOp", "BoolOp", "Compare"):
+                n += 1
+                c.violation("R14-TABLES", m.qualname(fd).replace("pytato.", "", 1),
+                            f"python-operator:ast.{x.attr}", m.loc(mi, x),
+                            f"the emitter builds an ast.{x.attr} node: unary, boolean and "
+                            "comparison operators of Python do not have NumPy's element-wise "
+                            "meaning (or type) on arrays; they must be emitted as calls")
+    c.ok("R14-TABLES", "target.python.numpy_like", "python-operators-only-from-the-table",
+         m.loc(NL, tbl), f"{len(tbl.values)} operators, all table entries",
+         nontrivial=len(tbl.values) > 0)
+
+
 def r_consume(c):
     m = c.model
     flow = Flow(m, NPGEN, max_depth=6)
@@ -395,7 +436,7 @@ def r_unsupported(c):
 
 SPEC = Spec(
     prop="C14",
-    rules=[r_namespace, r_tables, r_consume, r_args, r_unsupported],
+    rules=[r_namespace, r_tables, r_consume, r_args, r_unsupported, r_operator_inventory],
     floors={"R14-NAMESPACE": 40, "R14-TABLES": 50, "R14-CONSUME": 20, "R14-ARGS": 12,
             "R14-UNSUPPORTED": 6},
     explanation=(
